@@ -1081,11 +1081,12 @@ package router
 
 //@ closure (r *router) AttachClient 2
 //@   on router
-//@   props C11 C09
+//@   props C11 C09 C10
 //@   captures sync != nil && hello != nil && !isnil(sendAbort) && r != nil && !isnil(r.log)
 //@   sendsite result error : [realm-exists] isnil(m) ==> realm != nil
 //@   sendsite result error : [attach-only-to-the-requested-realm] isnil(m) ==> hello.Realm in r.realms && r.realms[hello.Realm] == realm
 //@   sendsite result error : [not-while-closing] isnil(m) ==> !r.closed
+//@   callsite addRealm : [template-realm-keeps-the-template's-authorization-settings] r.realmTemplate != nil && arg1.Authorizer == r.realmTemplate.Authorizer && arg1.RequireLocalAuthz == r.realmTemplate.RequireLocalAuthz && arg1.RequireLocalAuth == r.realmTemplate.RequireLocalAuth && arg1.URI == hello.Realm
 
 //@ func (r *realm) handleSession
 //@   requires r != nil && sess != nil
@@ -1094,16 +1095,19 @@ package router
 //@ mapinv map[wamp.URI]*router.realm : v != nil
 
 //@ func newRealm
+//@   props C10 C04
 //@   partial
 //@   requires broker != nil && dealer != nil && !isnil(logger)
 //@   ensures [realm-or-error] isnil(result1) ==> result0 != nil && fresh(result0) && result0.broker == broker && result0.dealer == dealer
+//@   ensures [authorization-settings-from-the-configuration] isnil(result1) ==> result0.authorizer == old(config.Authorizer) && result0.localAuthz == old(config.RequireLocalAuthz) && result0.localAuth == old(config.RequireLocalAuth)
 
 //@ func (r *router) addRealm
 //@   on router
-//@   props C11
+//@   props C11 C10
 //@   requires r != nil && config != nil && r.realms != nil && !isnil(r.log)
 //@   ensures [added-under-its-uri] isnil(result1) ==> result0 != nil && old(config.URI) in r.realms && r.realms[old(config.URI)] == result0
 //@   callsite newRealm : [every-realm-gets-its-own-broker-and-dealer] fresh(arg1) && fresh(arg2)
+//@   callsite newRealm : [realm-built-from-the-given-configuration] arg0 == config
 //@   ensures [new-realm-object] isnil(result1) ==> fresh(result0)
 
 //@ func newBroker
@@ -1235,14 +1239,20 @@ package router
 //@   maypanic
 //@   recvsite wamp.Message : [meta-client-registration-answers] assume isnil(m) || (is(m, *wamp.Registered) ==> m.(*wamp.Registered) != nil) && (is(m, *wamp.Error) ==> m.(*wamp.Error) != nil)
 
-// The meta client only ever receives INVOCATIONs of the meta procedures it
-// registered and the realm's final GOODBYE: the meta session announces no
-// callee features (no INTERRUPT), never calls, subscribes or asks for
-// acknowledgement.
+// The meta client receives INVOCATIONs of the meta procedures it registered
+// and the realm's final GOODBYE; the meta session announces no callee features
+// (no INTERRUPT) and never calls or subscribes. It can also receive PUBLISHED
+// or a PUBLISH ERROR: a testament stored with publish_options {acknowledge:
+// true} is published by the meta session with that option when its owner
+// leaves (found by a seeded change; the handler then logs "unexpected" and
+// sends its previous answer once more, which the dealer drops as a YIELD with
+// an unknown id). Such a message can only follow the add_testament INVOCATION
+// that stored the testament, so an answer has been produced before it arrives;
+// that ordering is an assumption about the realm as a whole.
 //@ func (r *realm) metaProcedureHandler
 //@   props C04
 //@   requires r != nil
-//@   recvsite wamp.Message : [meta-client-receives-invocations-or-goodbye] assume (is(m, *wamp.Invocation) && m.(*wamp.Invocation) != nil) || is(m, *wamp.Goodbye)
+//@   recvsite wamp.Message : [meta-client-receives-acknowledgements-only-after-an-invocation] assume wellformed(m) && (is(m, *wamp.Invocation) ==> m.(*wamp.Invocation) != nil) && (is(m, *wamp.Invocation) || is(m, *wamp.Goodbye) || !isnil(rsp))
 //@   callsite <dynamic> : [meta-procedures-answer-with-a-message] assume-after wellformed(result)
 
 // Sessions stored in the realm's client table were attached by AttachClient,
@@ -1283,6 +1293,8 @@ package router
 //@   on broker
 //@   props C20 C04
 //@   requires brokerInv(b) && brokerHist(b)
+//@   loop i < storeItem.entries.Len()
+//@     invariant [only-entries-of-the-asked-topic] forall k mathint :: 0 <= k && k < len(filteredEvents) ==> (len(topicUri) > 0 ==> "topic" in filteredEvents[k].Details && filteredEvents[k].Details["topic"] == box(topicUri))
 //@   loop i < j
 //@     invariant [reverse-bounds] 0 <= i && j < len(filteredEvents)
 
